@@ -50,7 +50,7 @@ def run(tier, seed):
     # a guest that cannot be stopped (code without termination checks served to a runtime that asked for them) freezes the whole
     # process at the next garbage collection: bound the run and name the rows that were running
     rc, out = sh([binp, "-seed", str(seed), "-n", str(nprog), "-rows", str(rows)], timeout=300 if tier == "quick" else 3000)
-    recs = [json.loads(ln) for ln in out.split("\n") if ln.startswith("{")]
+    recs = jlines(out)
     limits = [r for r in recs if r["t"] == "limits"]
     ids = [r for r in recs if r["t"] == "id"]
     execs = [r for r in recs if r["t"] == "exec"]
